@@ -17,6 +17,7 @@ func init() {
 			"(C02-canon) a set whose all-flag is raised has an empty protocol map - Intersection of the egress and ingress verdicts relies on it; (C02-pure) no unreviewed long-lived write on a query path (a memo keyed too coarsely gives one pair the verdict of another). " +
 			"(C02-role-*) endpoint roles as in C01: a rule's From meets the source, To the destination, and the ports of a rule - named ports included - are resolved on the destination pod in both directions. " +
 			"(C02-sel-owner) label selectors are matched inside the policy engine only (packages eval and eval/internal/k8s; the ingress analyzer for Service selectors): a second place that decides which objects a policy selects - a pre-filter of the objects given to `eval`, a relevance test in the parser - works on its own view of the labels and can drop a policy that the other command applies. " +
+			"(C02-d-sel) the positive answers of the admin-policy selection functions are given for non-IP peers only, decided by the provenance of every `true` (the rule E2-N3-sel). " +
 			"NOT decided: that the sets computed are the right sets; the behaviour of sort.Slice itself."
 		rules.SortedTypestate(p, r)
 		rules.PriorityComparator(p, r)
@@ -26,6 +27,7 @@ func init() {
 		rules.AdminNeverSelectsIP(p, r)
 		rules.AdminRuleIterationSiblings(p, r, "C02-sib")
 		rules.SelectionOwnedByEngine(p, r, "C02-sel-owner")
+		rules.AdminSelectionExcludesIPs(p, r, "C02-d-sel")
 		rules.LoopCarriedDefaults(p, r, "C02-loop")
 		rules.SliceShrinkByIdentity(p, r, "C02-shrink")
 		rules.AllowAllResetsMap(p, r, "C02-canon")
